@@ -17,13 +17,21 @@ use std::path::PathBuf;
 use vh_core::Ctx;
 
 pub fn peer_id(seed: u8) -> PeerId {
-    let mut b = [0u8; 32];
-    b[0] = seed;
-    b[31] = 0x17;
-    libp2p::identity::Keypair::ed25519_from_bytes(b)
-        .expect("ed25519 seed")
-        .public()
-        .to_peer_id()
+    // ed25519 key derivation costs ~50 us; the 256 possible ids are memoised per thread
+    thread_local! {
+        static IDS: std::cell::RefCell<Vec<Option<PeerId>>> = std::cell::RefCell::new(vec![None; 256]);
+    }
+    IDS.with(|ids| {
+        *ids.borrow_mut()[seed as usize].get_or_insert_with(|| {
+            let mut b = [0u8; 32];
+            b[0] = seed;
+            b[31] = 0x17;
+            libp2p::identity::Keypair::ed25519_from_bytes(b)
+                .expect("ed25519 seed")
+                .public()
+                .to_peer_id()
+        })
+    })
 }
 
 /// A node entry described by small integers (readable in replay files).
